@@ -30,6 +30,9 @@ type RCase struct {
 	// round the first of them is stored by the coordinator just before the round, so that it is present but lives in
 	// the dirty map only when the concurrent calls arrive
 	FreshKeys bool `json:"fresh_keys,omitempty"`
+	// FreshMap: every round runs on a brand-new zero Map (the goroutines' calls are its very first calls); no stable
+	// keys, no churn
+	FreshMap bool `json:"fresh_map,omitempty"`
 }
 
 func (c RCase) key(r, k int) int {
@@ -43,10 +46,15 @@ func RunRounds(c RCase) pbt.Outcome {
 	if c.Procs > 0 {
 		defer runtime.GOMAXPROCS(runtime.GOMAXPROCS(c.Procs))
 	}
-	var m sync2.Map[int, int]
+	var m0 sync2.Map[int, int]
+	var cur atomic.Pointer[sync2.Map[int, int]]
+	cur.Store(&m0)
+	if c.FreshMap {
+		c.Stable, c.Churn, c.FreshKeys = 0, "none", false
+	}
 	state := map[int]int{}
 	for i := 0; i < c.Stable; i++ {
-		m.Store(100+i, 5100+i)
+		m0.Store(100+i, 5100+i)
 		state[100+i] = 5100 + i
 	}
 	var clock atomic.Int64
@@ -85,7 +93,7 @@ func RunRounds(c RCase) pbt.Outcome {
 					val := int(r)*64 + w*8 + oi + 1
 					op.Key = c.key(int(r), op.Key)
 					rec := Rec{Th: w, Op: op, Val: val, Inv: int(clock.Add(1))}
-					rec.Out, rec.OK, rec.Pairs, rec.Calls = Exec(&m, op, val)
+					rec.Out, rec.OK, rec.Pairs, rec.Calls = Exec(cur.Load(), op, val)
 					rec.Resp = int(clock.Add(1))
 					rs = append(rs, rec)
 				}
@@ -100,7 +108,7 @@ func RunRounds(c RCase) pbt.Outcome {
 	}
 	seq := func(hist *[]Rec, op MOp, val int) Rec {
 		rec := Rec{Th: -2, Op: op, Val: val, Inv: int(clock.Add(1))}
-		rec.Out, rec.OK, rec.Pairs, rec.Calls = Exec(&m, op, val)
+		rec.Out, rec.OK, rec.Pairs, rec.Calls = Exec(cur.Load(), op, val)
 		rec.Resp = int(clock.Add(1))
 		*hist = append(*hist, rec)
 		return rec
@@ -132,6 +140,10 @@ func RunRounds(c RCase) pbt.Outcome {
 		roundsDone = r
 		hist = hist[:0]
 		k0, k1 := c.key(r, 0), c.key(r, 1)
+		if c.FreshMap {
+			cur.Store(new(sync2.Map[int, int]))
+			state = map[int]int{}
+		}
 		if c.FreshKeys && r%2 == 0 {
 			seq(&hist, MOp{K: "store", Key: k0}, r*64+60)
 		}
@@ -212,19 +224,22 @@ func RunRounds(c RCase) pbt.Outcome {
 		}
 		if c.FreshKeys {
 			// this round's keys are never used again
-			m.Delete(k0)
-			m.Delete(k1)
+			cur.Load().Delete(k0)
+			cur.Load().Delete(k1)
 			delete(state, k0)
 			delete(state, k1)
 		}
 		if r%256 == 0 {
-			layoutLabels(&m, layouts)
+			layoutLabels(cur.Load(), layouts)
 		}
 	}
 	finish()
 	out := pbt.Outcome{Evals: roundsDone, NonTrivial: overlapped > 0, Labels: []string{"churn=" + c.Churn, fmt.Sprintf("goroutines=%d", W)}}
 	if c.FreshKeys {
 		out.Labels = append(out.Labels, "fresh-contested-keys-every-round(dirty-only)")
+	}
+	if c.FreshMap {
+		out.Labels = append(out.Labels, "brand-new-map-every-round")
 	}
 	if cut {
 		out.Labels = append(out.Labels, "case-cut-short-by-its-wall-clock-budget")
@@ -240,7 +255,7 @@ func RunRounds(c RCase) pbt.Outcome {
 
 var specRounds = pbt.Register(&pbt.Spec[RCase]{
 	Property: "C04", Name: "C04.rounds",
-	Rule: "E4 free-running, no race detector (speed): 1000..10000 tiny rounds on ONE long-lived Map: 2..4 persistent goroutines each run 1..2 calls {Store, LoadOrStore, LoadAndDelete, Delete, Load, Range} on the contested keys 0/1 (one case in three: on two keys never used before, one of them stored just before the round so that it lives in the dirty map only) at the same moment (spin barrier), " +
+	Rule: "E4 free-running, no race detector (speed): 1000..10000 tiny rounds on ONE long-lived Map: 2..4 persistent goroutines each run 1..2 calls {Store, LoadOrStore, LoadAndDelete, Delete, Load, Range} on the contested keys 0/1 (one case in three: on two keys never used before, one of them stored just before the round so that it lives in the dirty map only) at the same moment (spin barrier; one case in six: every round on a brand-new zero Map, so the calls are its very first ones), " +
 		"0..40 stable keys are never touched, between rounds the coordinator reads the contested keys, churns (fresh key stored and an older one deleted / Range = promotion / misses = promotion / all in turn) and reads them again; " +
 		"oracle: each round's history (concurrent calls + the sequential ones around them) against the linearizability + Range rule with the state before the round as the start (so a store that is visible first and gone after the next promotion, " +
 		"a Range that skips a stable key, a resurrected value all show); non-trivial = sampled rounds had overlapping calls on one key from different goroutines",
@@ -249,6 +264,7 @@ var specRounds = pbt.Register(&pbt.Spec[RCase]{
 			Churn:  rapid.SampledFrom([]string{"none", "fresh", "promote", "fresh+promote", "fresh+promote", "misses", "cycle", "cycle"}).Draw(t, "churn"),
 			Rounds: rapid.SampledFrom([]int{1000, 3000, 10000}).Draw(t, "rounds"), Procs: rapid.SampledFrom([]int{4, 8, 16}).Draw(t, "procs")}
 		c.FreshKeys = rapid.IntRange(0, 2).Draw(t, "freshkeys") == 1
+		c.FreshMap = !c.FreshKeys && rapid.IntRange(0, 3).Draw(t, "freshmap") == 1
 		w := rapid.IntRange(2, 4).Draw(t, "goroutines")
 		oneKey := rapid.Bool().Draw(t, "onekey")
 		for i := 0; i < w; i++ {
